@@ -46,6 +46,25 @@ def library_crash_class_2():
     return _LIBRARY_CRASH[1]
 
 
+def library_crash_class_n(n):
+    """Same, deriving from the two library errors the entry points turn into error responses when they come out of
+    operation selection / variable coercion (n = 2, 3): raised by a resolver they are unexpected like any other."""
+    while len(_LIBRARY_CRASH) < 4:
+        library_crash_class_2()
+        from py_gql.exc import InvalidOperationError, VariablesCoercionError
+
+        class CrashInvalidOperationError(Crash, InvalidOperationError):
+            pass
+
+        class CrashVariablesCoercionError(Crash, VariablesCoercionError):
+            def __init__(self, message):
+                Crash.__init__(self, message)
+                self.errors = []
+
+        _LIBRARY_CRASH.extend([CrashInvalidOperationError, CrashVariablesCoercionError])
+    return _LIBRARY_CRASH[n]
+
+
 def library_crash_class():
     """An application exception that happens to derive from the library's ExecutionError (not from its resolver
     error): still nothing a resolver is supposed to raise, hence unexpected."""
